@@ -215,6 +215,9 @@ def random_case(draw):
         opts = draw(st.sampled_from([[], [], ["--neutralc"], ["--neutraln"], ["--neutraln", "--neutralc"]]))
     # titration combined with the optimisation / debumping switches
     opts = opts + draw(st.sampled_from([[], [], [], ["--noopt"], ["--nodebump"], ["--nodebump", "--noopt"]]))
+    if draw(st.integers(0, 3)) == 0:
+        # an output naming scheme other than the parameter force field: names change, states do not
+        opts = opts + ["--ffout=" + draw(st.sampled_from(ffmodel.FFS))]
     return dict(part="random", chain=ch, pka=pka, phs=sorted(set(phs)), ff=ff, opts=opts)
 
 
